@@ -11,6 +11,56 @@ OBJ_INLINE = [r"engine::PubPoint::process_(cer|ca_cer|router_cert|roa|aspa|gbr)$
 PROCESSOR = r"ProcessPubPoint::(want|process_roa|process_aspa|process_gbr|process_router_cert|process_ca)$"
 
 
+def check_commit(res, E):
+    """PubPointProcessor::commit hands the publication point's payload on exactly when some payload list of
+    payload::validation::PubPoint is non-empty (every Vec field of the struct counts as a payload list)."""
+    VF = "src/payload/validation.rs"
+    src = open(mir.os.path.join(mir.REPO, VF)).read()
+    m = re.search(r"pub struct PubPoint \{(.*?)\n\}", src, re.S)
+    fields = mir.struct_fields("PubPoint", VF)
+    vec_fields = [f for f in fields if m and re.search(r"\b%s:\s*Vec<" % f, m.group(1))]
+    if len(vec_fields) < 2:
+        res.inconclusive.append("commit: payload lists of validation::PubPoint not identified (%s)" % vec_fields)
+        return 0
+    body = E.prog.find(VF, "PubPointProcessor", "commit")
+    empt = {fields.index(f): z3.Bool("list_%s_is_empty" % f) for f in vec_fields}
+
+    def m_is_empty(E_, st, frame, callee, argvals, dest_ty):
+        r = argvals[0].get(())
+        loc = r.loc if isinstance(r, mir.Ref) else None
+        idx = None
+        if loc:
+            for part in reversed(loc):
+                if isinstance(part, tuple) and part[0] == "f":
+                    idx = part[1]
+                    break
+        if idx in empt:
+            return {(): empt[idx]}
+        return NotImplemented
+
+    paths = E.explore(body, max_visits=2, inline=[r"PubPoint::is_empty$"], models={r"^Vec::<.*>::is_empty$": m_is_empty})
+    res.functions.append("payload::validation::PubPointProcessor::commit with PubPoint::is_empty inlined (MIR): "
+                         "payload lists %s" % vec_fields)
+    n = 0
+    all_empty = z3.And(list(empt.values()))
+    for i, p in enumerate(paths):
+        if p.kind != "return":
+            continue
+        n += 1
+        pushed = any(e.kind == "call" and re.search(r"::push(_back)?$", e.name) for e in p.events)
+        mdl = E.model(p.cond, all_empty if pushed else z3.Not(all_empty))
+        if mdl is not None and not pushed:
+            which = [f for f in vec_fields if z3.is_false(mdl.eval(empt[fields.index(f)], True))]
+            fn = mprop.write_cex(res, "commit_drops_%d" % i, p, E,
+                                 "commit() drops the publication point although its %s list is not empty" % "/".join(which), mdl)
+            res.violation("mir:dropped:commit-ignores-" + "-".join(which),
+                          "an accepted publication point whose only payload is in `%s` is discarded at commit: its valid "
+                          "items never reach the served data set" % "/".join(which), fn)
+    if n < 2:
+        res.inconclusive.append("vacuity: commit paths=%d" % n)
+    return n
+
+
 def run(res, tier):
     E = mprop.engine(res)
     res.extra.setdefault("source_files_sha256", {}).update(
@@ -154,6 +204,7 @@ def run(res, tier):
                 if not (p.has(r"PubPoint::accept_point$") or p.has(r"PubPoint::reject_point$")):
                     fn = mprop.write_cex(res, "updated_not_accepted_%d" % i, p, E, "update stored but the point is neither accepted nor rejected")
                     res.violation("mir:dropped:updated-point-not-accepted", "a successfully updated point's payload is not committed", fn)
+    total += check_commit(res, E)
     res.distinct += total
     res.samples.append({"process_object_paths": len(paths), "all_valid_paths_reaching_processor": reached,
                         "process_stored_rejecting_paths": n_rej, "process_stored_accepting_paths": n_acc})
